@@ -125,6 +125,67 @@ func init() {
 		},
 	})
 	eng.Register(&eng.Scenario{
+		Name: "refcount-late-release", Props: []string{"C10", "C08"}, MustFinish: true, ObsNames: stdObs,
+		Doc:   "RefCount: consumer A obtains a value through ResolveWithReleased (or Resolve / Wait; choice); the value is invalidated (released()), which drops A's reference; consumer B then resolves the replacement and holds it; A now calls its release function (again, late): a repeated release is a no-op - B's value is not released while B holds it, and B's reference still counts",
+		Quick: eng.Bounds{PB: 2}, Thorough: eng.Bounds{PB: 3},
+		Body: func() {
+			e := newRC2(bg, false, func(int) int { return mValue })
+			how := vsched.Choose(3)
+			var relA func()
+			var vA int
+			var err error
+			switch how {
+			case 0:
+				vA, relA, err = e.rc.ResolveWithReleased(bg, func() { vsched.CtrAdd(xRelCb, 1) })
+			case 1:
+				vA, relA, err = e.rc.Resolve(bg)
+			case 2:
+				var ref *refcount.Ref[int]
+				vA, ref, err = e.rc.Wait(bg)
+				if ref != nil {
+					relA = ref.Release
+				}
+			}
+			if err != nil || vA != valOf(1) {
+				fail("C10.wrong-error", "first consumer got (%d,%v)", vA, err)
+				return
+			}
+			if how != 0 {
+				relA() // (A releases by itself; with ResolveWithReleased the invalidation below does it)
+			}
+			if f, ok := vsched.GetCell(50).(func()); ok {
+				vsched.CtrSet(rcInv0+1, 1)
+				f()
+			}
+			vsched.Settle()
+			vB, relB, err := e.rc.Resolve(bg)
+			if err != nil {
+				fail("C10.wrong-error", "second consumer got (%d,%v)", vB, err)
+				return
+			}
+			vsched.CtrAdd(rcHeld, 1)
+			heldValueOracle(vB, "right after Resolve returned")
+			relA() // late, repeated
+			vsched.Settle()
+			heldValueOracle(vB, "after another consumer repeated its release")
+			// B's reference still counts: a third consumer that comes and goes does not take the value away
+			vC, relC, err := e.rc.Resolve(bg)
+			if err != nil || vC != vB {
+				fail("C10.stale-value", "third consumer got (%d,%v) while the second still holds %d", vC, err, vB)
+			} else {
+				relC()
+			}
+			vsched.Settle()
+			heldValueOracle(vB, "after a third consumer came and went")
+			vsched.CtrAdd(rcHeld, -1)
+			relB()
+			vsched.Settle()
+			e.finalRelease()
+			e.setContext(nil)
+			vsched.Settle()
+		},
+	})
+	eng.Register(&eng.Scenario{
 		Name: "refcount-canceled-error", Props: []string{"C10"}, MustFinish: true, ObsNames: stdObs,
 		Doc:   "RefCount whose resolver fails with the error context.Canceled itself (its own context is live): Wait / Resolve / ResolveWithReleased / Access / WaitRefCountContainer (choice) with a live caller context return that error as such and promptly (no spinning, no parking), before or after the result is stored (choice)",
 		Quick: eng.Bounds{PB: 2}, Thorough: eng.Bounds{PB: 3},
